@@ -281,6 +281,8 @@ class CSSMediaRule(cssrule.CSSRuleRules):
             # (read by the parser of the containing sheet or rule)
             self._accepted = ok
             if ok:
+                # literal keyword (preference defaultAtKeyword)
+                self._keyword = self._tokenvalue(attoken)
                 self.media = newMedia
                 self.name = name
                 self._setSeq(nameseq)
